@@ -43,7 +43,7 @@ def boundary_pair(rng, w, n, signed, kind):
 
 
 def gen(rng, tier):
-    reps = 30 if tier == "thorough" else 5
+    reps = 30 if tier == "thorough" else 12
     for cfg in (CFGS17 if tier == "thorough" else QUICK17):
         w, n = wn(cfg)
         W = w * n
